@@ -315,6 +315,10 @@ theorem inv_applyBegin (cfg : Cfg) (hc : cfg.ignoreExact = true) {st : St} (hr :
 @[simp] theorem addNames_inflight (st : St) (m t : Nat) : (addNames st m t).inflight = st.inflight := by unfold addNames; split <;> rfl
 
 /-- the invariant does not mention the dictionaries -/
+theorem inv_foreign {st : St} (k : Nat) (h : Inv st) : Inv { st with foreignMem := k } := by
+  obtain ⟨h1, h2, h3, h4, h5, h6, h7, h8, h9, h10, h11, h12, h13, h14, h15, h16, h17, h18, h19, h20, h21, h22⟩ := h
+  constructor <;> assumption
+
 theorem inv_dicts {st : St} (d1 : Dict Nat) (d2 d3 : Dict (Nat × Nat)) (h : Inv st) :
     Inv { st with metric := d1, tagv := d2, index := d3 } := by
   obtain ⟨h1, h2, h3, h4, h5, h6, h7, h8, h9, h10, h11, h12, h13, h14, h15, h16, h17, h18, h19, h20, h21, h22⟩ := h
@@ -571,24 +575,27 @@ theorem inv_freeze {st : St} (hr : st.phase = .running)
   unfold doFreeze
   split
   case h_2 => exact h
-  case h_1 r0 rs hfz hmm =>
+  case h_1 hfz =>
+   split
+   case isTrue => exact h
+   case isFalse =>
     have hfr : frozenRows st = [] := by simp [frozenRows, hfz]
     have hto : ∀ r, Stored st r → Stored
-        { st with frozen := some ⟨r0 :: rs, st.seq, false⟩, memMut := [],
+        { st with frozen := some ⟨st.memMut, st.seq, false⟩, memMut := [], foreignMem := 0,
                   inflight := st.inflight.map freezeMark } r := by
       intro r hr'
       rcases hr' with hr' | hr' | hr'
       · exact Or.inl hr'
       · rw [hfr] at hr'; cases hr'
-      · exact Or.inr (Or.inl (by simpa [frozenRows, hmm] using hr'))
+      · exact Or.inr (Or.inl (by simpa [frozenRows] using hr'))
     have hfrom : ∀ r, Stored
-        { st with frozen := some ⟨r0 :: rs, st.seq, false⟩, memMut := [],
+        { st with frozen := some ⟨st.memMut, st.seq, false⟩, memMut := [], foreignMem := 0,
                   inflight := st.inflight.map freezeMark } r →
         Stored st r := by
       intro r hr'
       rcases hr' with hr' | hr' | hr'
       · exact Or.inl hr'
-      · exact Or.inr (Or.inr (by simpa [frozenRows, hmm] using hr'))
+      · exact Or.inr (Or.inr (by simpa [frozenRows] using hr'))
       · simp at hr'
     obtain ⟨h1, h2, h3, h4, h5, h6, h7, h8, h9, h10, h11, h12, h13, h14, h15, h16, h17, h18, h19, h20, h21, h22⟩ := h
     have h8' := h8 (by rw [hr]; decide)
@@ -624,7 +631,7 @@ theorem inv_freeze {st : St} (hr : st.phase = .running)
       · rcases hr1 with hr1 | hr1 | hr1
         · exact Or.inr (Or.inl ⟨r, hr1, hr2⟩)
         · rw [hfr] at hr1; cases hr1
-        · exact Or.inr (Or.inr ⟨r, by simpa [hmm] using hr1, hr2⟩)
+        · exact Or.inr (Or.inr ⟨r, hr1, hr2⟩)
     case fz_capt =>
       intro fz hfz'
       simp at hfz'; subst hfz'
@@ -1011,6 +1018,10 @@ theorem inv_step (cfg : Cfg) (hx : cfg.ignoreExact = true) {st : St} (e : Ev) (h
       · exact h
       · exact inv_appendBad (by simpa using ‹¬ st.walGone = true›) h
     · exact h
+  case foreignWrite m t =>
+    split
+    · exact inv_addNames m t (inv_foreign _ h)
+    · exact h
   case applyBegin =>
     split
     · split
@@ -1178,17 +1189,23 @@ theorem taken_acquired_step (cfg : Cfg) (hc : cfg.atomicAcquire = true) {st : St
   case metaFlushTagv => split <;> exact h
   case indexPrepare => split <;> exact h
   case indexFlush => split <;> exact h
+  case foreignWrite m t =>
+    split
+    · intro fl hfl; simp only [addNames_inflight] at hfl; exact h fl hfl
+    · exact h
   case freeze =>
     split
     · unfold doFreeze
       split
       case h_2 => exact h
       case h_1 =>
-        intro fl hfl ht
-        simp at hfl
-        obtain ⟨fl0, hfl0, rfl⟩ := hfl
-        obtain ⟨_, _, _, _, _, e6, e7⟩ := freezeMark_same fl0
-        rw [e6]; rw [e7] at ht; exact h fl0 hfl0 ht
+        split
+        · exact h
+        · intro fl hfl ht
+          simp at hfl
+          obtain ⟨fl0, hfl0, rfl⟩ := hfl
+          obtain ⟨_, _, _, _, _, e6, e7⟩ := freezeMark_same fl0
+          rw [e6]; rw [e7] at ht; exact h fl0 hfl0 ht
     · exact h
   case dataCommit =>
     split
